@@ -11,7 +11,8 @@ from mc import devex
 from mc.vloop import World
 
 SIZES = [0, 1, 2047, 2048, 2049, 5000]
-FORMS = ["bytes", "mv", "mvslice", "mvint"]
+FORMS = ["bytes", "mv", "mvslice", "mvint", "mv2d", "mvrel"]
+SHAPES = {1: [1, 1], 2047: [23, 89], 2048: [32, 64], 2049: [3, 683], 5000: [50, 100]}
 KINDS = [(s, f) for s in SIZES for f in FORMS if not (f == "mvint" and s % 4) and not (s == 0 and f != "bytes")]
 
 
@@ -28,6 +29,10 @@ def make(i, size, form):
     if form == "mvslice":
         big = bytearray(b"\xee" * 3 + raw + b"\xee" * 5)
         return memoryview(big)[3:3 + size], raw
+    if form == "mv2d":          # a byte view with len() != nbytes
+        return memoryview(bytearray(raw)).cast("B", shape=SHAPES[size]), raw
+    if form == "mvrel":         # the caller releases its own view as soon as write() has returned
+        return memoryview(bytearray(raw)), raw
     a = array.array("I")
     a.frombytes(raw)
     return memoryview(a), raw
@@ -49,6 +54,7 @@ def run(ch, prog, maxbuf):
         events = []       # ("done", i, sent_at_that_time, exc)
         writes = []       # (i, end_offset) for accepted writes
         refused = []
+        cancelled = set()
         for i, ki in enumerate(prog):
             size, form = KINDS[ki]
             data, raw = make(i, size, form)
@@ -66,11 +72,20 @@ def run(ch, prog, maxbuf):
                 continue
             if should_refuse:
                 events.append(("oversize-accepted", i, "%d buffered + %d written > %d" % (before[0], size, maxbuf)))
+            if form == "mvrel":
+                data.release()
             expected += raw
             writes.append((i, len(expected)))
             f.add_done_callback(lambda fut, i=i: events.append(
-                ("done", i, len(sock.sent), type(fut.exception()).__name__ if fut.exception() else None)))
+                ("done", i, len(sock.sent), "cancelled" if fut.cancelled() else
+                 type(fut.exception()).__name__ if fut.exception() else None)))
             w.loop.drain()
+            # the caller may give up waiting for a write that is still pending (e.g. asyncio.wait_for timing out):
+            # the bytes are still owed to the transport and later writes are unaffected
+            if not f.done() and ch.choose(2, "caller-cancels-the-future") == 1:
+                f.cancel()
+                cancelled.add(i)
+                w.loop.drain()
             if sock.blocked and ch.choose(2, "writable-between-writes") == 1:
                 sock.unblock()
                 w.pump()
@@ -84,7 +99,7 @@ def run(ch, prog, maxbuf):
             n += 1
         w.pump()
         return {"sent": bytes(sock.sent), "expected": bytes(expected), "events": events,
-                "writes": writes, "refused": refused, "closed": s.closed(),
+                "writes": writes, "refused": refused, "closed": s.closed(), "cancelled": sorted(cancelled),
                 "left": len(s._write_buffer) if s._write_buffer is not None else None,
                 "pending": len(s._write_futures)}
 
@@ -120,9 +135,13 @@ def judge(o):
             bad.append(("write-raised-" + e[2], "write %d raised %s" % (e[1], e[2])))
         if e[0] == "oversize-accepted":
             bad.append(("oversize-write-accepted", "write %d accepted although %s" % (e[1], e[2])))
-    if [e[1] for e in done] != [wi for wi, _ in o["writes"]]:
+    canc = set(o.get("cancelled", ()))
+    done = [e for e in done if e[1] not in canc]
+    if o.get("closed"):
+        bad.append(("stream-closed", "the stream closed itself during plain writes (cancelled futures: %r)" % sorted(canc)))
+    if [e[1] for e in done] != [wi for wi, _ in o["writes"] if wi not in canc]:
         bad.append(("resolution-order", "futures resolved in order %r, writes accepted %r"
-                    % ([e[1] for e in done], [wi for wi, _ in o["writes"]])))
+                    % ([e[1] for e in done], [wi for wi, _ in o["writes"] if wi not in canc])))
     ends = dict(o["writes"])
     for _, i, sent_then, exc in done:
         if exc is not None:
@@ -193,9 +212,10 @@ class C12(Check):
     id = "C12"
     level = "model_checking"
     rule = ("(a) all write programs of length <= L over sizes {0,1,2047,2048,2049,5000} x forms {bytes, "
-            "memoryview, sliced memoryview, int-format memoryview}, max_write_buffer_size in {None, 4096}; "
+            "memoryview, sliced memoryview, int-format memoryview, 2-dimensional byte memoryview, memoryview released by "
+            "the caller after write() returned}, max_write_buffer_size in {None, 4096}; "
             "each transport send() answers one of {accept all, EAGAIN, 1 byte, half}, and a blocked socket "
-            "may become writable between writes; deviation bound D; (b) BFS over _StreamBuffer histories "
+            "may become writable between writes, and the caller may cancel a still pending write future; deviation bound D; (b) BFS over _StreamBuffer histories "
             "(append of 8 size/kind combinations, peek, advance by 1 / len-1 / len / first-buffer boundary "
             "/ 2047 / 2048) to depth K against a bytearray; state = execution (a) or canonical buffer "
             "structure (b); non-trivial = executions with >= 1 partial send or EAGAIN")
